@@ -57,6 +57,20 @@ def run(ctx):
         else:
             R.violation('a', 'R6', inst_s, 'batch_path:sorted', 'sort calls %d with an equality guard on the indices gating success: %s; is_sorted() sites %d gating success: %s'
                         % (len(sorts), ok_a, len(iss), ok_b), f.loc())
+        # two GIVEN leaves are hashed together only when the next index is exactly the sibling of the current one (seed C09-3: `<=` let a
+        # duplicated left position swallow its neighbour's leaf, so a leaf verified at a position it is not committed at)
+        sib = [g for g in find_guards(f.body)
+               if (has(g.a_orig, 'call:*::sibling') != has(g.b_orig, 'call:*::sibling'))
+               and has(g.b_orig if has(g.a_orig, 'call:*::sibling') else g.a_orig, 'pty:MerkleBatchPath.indices')]
+        inst_sib = 'verify_leaves_membership_from_batch_path: the next index is compared with the sibling for EQUALITY'
+        if sib:
+            loose = [g.line for g in sib if g.op not in ('Eq', 'Ne')]
+            if loose:
+                R.violation('a', 'R6', inst_sib, 'batch_path:sibling-equality', 'order comparison(s) between an index and a sibling at line %s: a repeated or lower index is taken for the sibling' % loose, f.loc())
+            else:
+                R.ok('a', 'R6', inst_sib, '%d comparison(s)' % len(sib), f.loc())
+        else:
+            R.info('a', 'no comparison between a path index and a sibling() value in this layout: the sibling-equality rule does not apply')
         # ---- (b)
         body = f.body
         digs = [c for c in body.calls() if any(glob_match('*digest::*::digest', n) or glob_match('*Digest*::digest', n) for n in c.names())]
